@@ -427,3 +427,74 @@ pub fn diff_maps<C: PixelColor + core::fmt::Debug>(
     }
     None
 }
+
+
+/// Native-fill target that only tracks the extent (min / max corner) of everything it is asked to
+/// paint, in O(1) per fill: for bounding-box containment of display-scale drawables (C02).
+pub struct ExtentT<C: PixelColor> {
+    pub bbox: Rectangle,
+    pub min: Option<Point>,
+    pub max: Option<Point>,
+    pub pixels: u64,
+    _c: core::marker::PhantomData<C>,
+}
+
+impl<C: PixelColor> ExtentT<C> {
+    pub fn new() -> Self {
+        Self { bbox: BIG_BOX, min: None, max: None, pixels: 0, _c: core::marker::PhantomData }
+    }
+    fn touch(&mut self, p: Point) {
+        self.min = Some(self.min.map_or(p, |m| m.component_min(p)));
+        self.max = Some(self.max.map_or(p, |m| m.component_max(p)));
+    }
+    fn touch_rect(&mut self, r: &Rectangle) {
+        if let Some(br) = r.bottom_right() {
+            self.touch(r.top_left);
+            self.touch(br);
+            self.pixels += r.size.width as u64 * r.size.height as u64;
+        }
+    }
+}
+impl<C: PixelColor> Default for ExtentT<C> {
+    fn default() -> Self {
+        Self::new()
+    }
+}
+impl<C: PixelColor> Dimensions for ExtentT<C> {
+    fn bounding_box(&self) -> Rectangle {
+        self.bbox
+    }
+}
+impl<C: PixelColor> DrawTarget for ExtentT<C> {
+    type Color = C;
+    type Error = Fault;
+    fn draw_iter<I>(&mut self, pixels: I) -> Result<(), Fault>
+    where
+        I: IntoIterator<Item = Pixel<C>>,
+    {
+        for Pixel(p, _) in pixels {
+            self.touch(p);
+            self.pixels += 1;
+        }
+        Ok(())
+    }
+    fn fill_contiguous<I>(&mut self, area: &Rectangle, colors: I) -> Result<(), Fault>
+    where
+        I: IntoIterator<Item = C>,
+    {
+        for (p, _) in area.points().zip(colors) {
+            self.touch(p);
+            self.pixels += 1;
+        }
+        Ok(())
+    }
+    fn fill_solid(&mut self, area: &Rectangle, _color: C) -> Result<(), Fault> {
+        self.touch_rect(area);
+        Ok(())
+    }
+    fn clear(&mut self, _color: C) -> Result<(), Fault> {
+        let b = self.bbox;
+        self.touch_rect(&b);
+        Ok(())
+    }
+}
